@@ -43,6 +43,7 @@ type Options struct {
 	TimeoutS         int
 	Verbose          bool
 	MaxViolations    int
+	Seed             int
 }
 
 type NativeOut struct {
@@ -391,7 +392,6 @@ func printMap(w io.Writer, title string, m map[string]int) {
 	}
 }
 
-func CheckMain(args []string) int    { fmt.Println("check: not yet"); return 2 }
 func SelfTestMain(args []string) int { fmt.Println("selftest: not yet"); return 0 }
 
 func ParseBounds(s string) map[string]int {
